@@ -170,11 +170,14 @@ func findFunctionCallViolation(
 		// Direct function call: CreateMockData()
 		funcName := fun.Name
 		// The identifier must denote the package-level function itself, not a local
-		// variable or parameter that merely shares its name.
-		if fn, ok := ctx.pass.TypesInfo.Uses[fun].(*types.Func); !ok || fn.Pkg() == nil || fn.Pkg().Path() != *ctx.currentPkgPath {
+		// variable or parameter that merely shares its name. The function belongs to the
+		// current package or, with a dot import, to an imported one.
+		fn, ok := ctx.pass.TypesInfo.Uses[fun].(*types.Func)
+		if !ok || fn.Pkg() == nil {
 			return nil
 		}
-		if ctx.testOnlyFuncs.Match(*ctx.currentPkgPath, funcName, funcName) {
+		funcName = fn.Name()
+		if ctx.testOnlyFuncs.Match(fn.Pkg().Path(), funcName, funcName) {
 			return &TestOnlyViolation{
 				Pos:         call.Pos(),
 				TestOnlyObj: funcName,
